@@ -35,7 +35,12 @@ def run(ctx):
                        "stay in untagged words")
     ctx.rule("R11-7", "the output is spliced into the word that held the substitution: the position recorded for a word is "
                       "not used after the token vector's length changed (E-EDITLIST)")
+    ctx.rule("R11-12", "a substitution leaves no residue that changes the next one: in the functions reachable from "
+                       "do_expansion, a field that is raised and lowered around the work (`depth += 1 .. depth -= 1`) is "
+                       "lowered on EVERY path to a return - an early return inside the bracket leaks a level per "
+                       "occurrence until a limit trips and every later `$(...)` yields nothing")
     for crate in ctx.crates:
+        bracket_rule(ctx, crate)
         from .. import editlist
         n_ = editlist.rule(ctx, crate, "R11-7", list(SITES))
         ctx.floor("R11-7", crate, "substitution passes with a token vector", n_, 2)
@@ -429,3 +434,21 @@ def pass_order_rule(ctx, crate, rule):
                    "not print what the inner command printed" % (INTERPRETING[p], {"shell::expand_brace_range": "{1..3}",
                    "shell::expand_glob": "*.txt", "shell::expand_brace": "{a,b}", "shell::expand_home": "~/x",
                    "shell::expand_env": "$HOME", "shell::expand_alias": "ll"}.get(p, "...")))
+
+
+def bracket_rule(ctx, crate):
+    from .c15 import pairing_rule
+    cg = crate.callgraph()
+    scope, todo = set(), ["shell::do_expansion"]
+    while todo:
+        x = todo.pop()
+        if x in scope:
+            continue
+        scope.add(x)
+        todo.extend(cg.get(x, ()))
+    if not ctx.require(len(scope) >= 10, "R11-12", "R11-12|scope", "call graph below do_expansion too small (%d)" % len(scope)):
+        return
+    pairing_rule(ctx, crate, rule="R11-12", scope=sorted(scope), strict=False,
+                 detail="an early `return` between the increment and the decrement leaves the field raised: each such "
+                        "substitution leaks one level, and once the limit is reached every `$(...)` in this shell expands to "
+                        "nothing (the command is not run, the surrounding text is lost)")
